@@ -104,6 +104,44 @@ fn build_pairs(subjects: &[(&str, Vec<HSpec>)], subsets: &[u32], strict: &[bool]
     v
 }
 
+/// H together with a crowd of n element observers (selectors that never match, that match other
+/// elements, or that match the same elements), registered before and after H: match ids beyond
+/// the first / second / third word of the match-id sets.
+fn crowd_pairs(subjects: &[(&str, Vec<HSpec>)], sizes: &[usize]) -> Vec<Pair> {
+    let mut v = vec![];
+    for (_, h) in subjects {
+        for &n in sizes {
+            for kind in 0..3 {
+                let o: Vec<HSpec> = (0..n)
+                    .map(|i| {
+                        let sel = match kind {
+                            0 => format!("zz{i}"),
+                            1 => ["b", "i", "p", "svg", "title", "q"][i % 6].to_string(),
+                            _ => ["a", "*", "a[b]", "[b]", "a:first-child", ":not(q)"][i % 6].to_string(),
+                        };
+                        HSpec { log: false, ..HSpec::obs(HKind::Element, &sel) }
+                    })
+                    .collect();
+                for before in [false, true] {
+                    let mut hu = vec![];
+                    let offset;
+                    if before {
+                        hu.extend(o.clone());
+                        offset = o.len() as u16;
+                        hu.extend(h.clone());
+                    } else {
+                        offset = 0;
+                        hu.extend(h.clone());
+                        hu.extend(o.clone());
+                    }
+                    v.push(Pair { h: Prepared::new(Cfg::with(h.clone()).strict(false)).unwrap(), hu: Prepared::new(Cfg::with(hu).strict(false)).unwrap(), offset, hn: h.len() as u16 });
+                }
+            }
+        }
+    }
+    v
+}
+
 fn project(events: &[Ev], offset: u16, hn: u16) -> Vec<Ev> {
     events
         .iter()
@@ -225,6 +263,8 @@ pub fn run_check(ctx: &Ctx) -> i32 {
         sweep(ctx, "F<=2 x 11 subjects x all 63 observer subsets x L0,L1", Space::Frags { k, max: 2 }, &full, l1);
         foreign(&full, l1, "17 foreign-content documents x all pairs x L0,L1");
         sweep(ctx, "Fcore<=3 x 11 subjects x 7 observer subsets x strict{t,f} x L0,LB", Space::Frags { k: F_CORE, max: 3 }, &few, l0);
+        let crowd = crowd_pairs(&subjects, &[33, 65]);
+        sweep(ctx, "F<=2 x 11 subjects x crowds of 33 / 65 element observers (never matching, matching other elements, matching the same elements; before and after H) x L0", Space::Frags { k, max: 2 }, &crowd, Levels { l1: false, l2_max_len: 0, bytewise: false, empties: false });
         sweep(ctx, "F<=3 x 11 subjects x 2 observer subsets x L0", Space::Frags { k, max: 3 }, &two, Levels { l1: false, l2_max_len: 0, bytewise: false, empties: false });
         sweep(ctx, "10 foreign contexts x 58 foreign tag fragments<=2 x 11 subjects x 2 observer subsets x L0,L1", Space::Foreign { max: 2 }, &two, l1);
     } else {
@@ -235,6 +275,8 @@ pub fn run_check(ctx: &Ctx) -> i32 {
         sweep(ctx, "F<=3 x 11 subjects x 7 observer subsets x strict{t,f} x L0,L1", Space::Frags { k, max: 3 }, &few, l1);
         sweep(ctx, "Fcore<=4 x 11 subjects x 7 observer subsets x L0,LB", Space::Frags { k: F_CORE, max: 4 }, &few, l0);
         sweep(ctx, "B16<=5 x 11 subjects x 7 observer subsets x L0,L1", Space::Bytes { max: 5 }, &few, l1);
+        let crowd = crowd_pairs(&subjects, &[31, 32, 33, 64, 65, 97, 130]);
+        sweep(ctx, "F<=2 x 11 subjects x crowds of 31..130 element observers (never matching, matching other elements, matching the same elements; before and after H) x L0,L1", Space::Frags { k, max: 2 }, &crowd, l1);
         sweep(ctx, "10 foreign contexts x 58 foreign tag fragments<=2 x 11 subjects x 7 observer subsets x strict{t,f} x L0,L1", Space::Foreign { max: 2 }, &few, l1);
     }
     ctx.finish(
